@@ -438,6 +438,40 @@ Definition gen_inst (equiv : Z -> Z -> bool) (kind code : Z) (ops outs live : li
     end
   end.
 
+(* ---- spill regions across functions ----
+   StackSpiller.set_current_function(fn) for fn in mem_allocator.fn_eom, followed by reset_spill_slots()
+   (generate_evm_assembly does both before every function):
+       base = max(fn_eom.values());  _next_spill_offset = max(base, peak_spill_end);  _spill_free_slots = []
+   `eoms` = the values of fn_eom (every static frame of function g lies inside [0, fn_eom[g])). *)
+Definition max_eom (eoms : list Z) : Z := fold_right Z.max 0 eoms.
+Definition start_fn (eoms : list Z) (s : sp) : sp := mkSp [] (Z.max (max_eom eoms) (sp_peak s)) (sp_peak s).
+
+(* what code generation of one function does to the spiller, abstractly: every operation of the spiller obtains slots
+   through _get_spill_slot and gives back (to the free list) only slots obtained earlier in the same function *)
+Inductive sop := SGet | SFree (offs : list Z).
+Definition subset_b (xs ys : list Z) : bool := forallb (fun x => existsb (Z.eqb x) ys) xs.
+Fixpoint run_ops (ops : list sop) (s : sp) (used : list Z) : option (sp * list Z) :=
+  match ops with
+  | [] => Some (s, used)
+  | SGet :: r => let '(s1, o) := get_slot false s in run_ops r s1 (o :: used)
+  | SFree offs :: r => if subset_b offs used then run_ops r (free_slots false s offs) used else None
+  end.
+(* the functions of a context one after the other; result: the slots each function ever used *)
+Fixpoint run_fns (eoms : list Z) (fns : list (list sop)) (s : sp) : option (list (list Z)) :=
+  match fns with
+  | [] => Some []
+  | ops :: r => match run_ops ops (start_fn eoms s) [] with
+                | None => None
+                | Some (s1, used) => match run_fns eoms r s1 with None => None | Some us => Some (used :: us) end
+                end
+  end.
+(* the 32-byte words of an earlier function's slots lie entirely below every slot of every later function *)
+Fixpoint regions_ordered (us : list (list Z)) : Prop :=
+  match us with
+  | [] => True
+  | u :: r => (forall o o', In o u -> In o' (concat r) -> o + 32 <= o') /\ regions_ordered r
+  end.
+
 (* ---- machine semantics of the emitted assembly: EVM stack (top first) + word memory keyed by offset ---- *)
 Definition mem := Z -> Z.
 Definition mset (mm : mem) (o v : Z) : mem := fun x => if x =? o then v else mm x.
